@@ -145,16 +145,16 @@ example : ∃ r', glweSubNegateAssign 2 exRes2 exPt = .ok r' ∧
     (by decide) (by decide) (by decide) (by decide) rfl (by decide)
   exact ⟨r', h, hp⟩
 
-/-- `glwe_negate`.  The API has no radix assertion; the statement is about limb columns and holds
-for any pair of radices — what fails for different radices is their reading as torus values, see
-`negate_radix_counterexample`. -/
-theorem negate_phase {N : Nat} {res a : GLWE} (hr : GWF N res) (ha : GWF N a) (sa : GSmall a) (hrank : a.rank = res.rank) :
+/-- `glwe_negate` (operands of one radix, as the API now asserts: the limb-column identity is the
+torus identity) -/
+theorem negate_phase {N : Nat} {res a : GLWE} (hr : GWF N res) (ha : GWF N a) (sa : GSmall a)
+    (hb : res.base2k = a.base2k) (hrank : a.rank = res.rank) :
     ∃ r', glweNegate N res a = .ok r' ∧ Same res r' ∧ GWF N r' ∧ r'.size = res.size ∧
       ∀ s, phase s r' = (fit N res.size (phase s a)).map polyNeg :=
-  negate_ok hr ha sa hrank
+  negate_ok hr ha sa hb hrank
 
 example : ∃ r', glweNegate 2 exRes exA = .ok r' ∧ ∀ s, phase s r' = (fit 2 2 (phase s exA)).map polyNeg := by
-  obtain ⟨r', h, _, _, _, hp⟩ := negate_phase (N := 2) (res := exRes) (a := exA) (by decide) (by decide) (by decide) rfl
+  obtain ⟨r', h, _, _, _, hp⟩ := negate_phase (N := 2) (res := exRes) (a := exA) (by decide) (by decide) (by decide) rfl rfl
   exact ⟨r', h, hp⟩
 
 /-- `glwe_negate_assign` -/
@@ -168,27 +168,27 @@ example : ∃ r', glweNegateAssign 2 exA = .ok r' ∧ ∀ s, phase s r' = (phase
   exact ⟨r', h, hp⟩
 
 /-- `glwe_copy` (same rank, or a plaintext copied into a ciphertext whose mask is zeroed) -/
-theorem copy_phase {N : Nat} {res a : GLWE} (hr : GWF N res) (ha : GWF N a)
+theorem copy_phase {N : Nat} {res a : GLWE} (hr : GWF N res) (ha : GWF N a) (hb : res.base2k = a.base2k)
     (hrank : (res.rank == a.rank || a.rank == 0) = true) :
     ∃ r', glweCopy N res a = .ok r' ∧ Same res r' ∧ GWF N r' ∧ r'.size = res.size ∧
       ∀ s, phase s r' = fit N res.size (phase s a) :=
-  copy_ok hr ha hrank
+  copy_ok hr ha hb hrank
 
 example : ∃ r', glweCopy 2 exRes2 exPt = .ok r' ∧ ∀ s, phase s r' = fit 2 2 (phase s exPt) := by
-  obtain ⟨r', h, _, _, _, hp⟩ := copy_phase (N := 2) (res := exRes2) (a := exPt) (by decide) (by decide) (by decide)
+  obtain ⟨r', h, _, _, _, hp⟩ := copy_phase (N := 2) (res := exRes2) (a := exPt) (by decide) (by decide) rfl (by decide)
   exact ⟨r', h, hp⟩
 
 /-! ## rotation by `X^k` and multiplication by `X^k − 1`, every `k ∈ ℤ` -/
 
 /-- `glwe_rotate` -/
 theorem rotate_phase {N : Nat} (k : Int) {res a : GLWE} (hr : GWF N res) (ha : GWF N a) (sa : GSmall a)
-    (hrank : (res.rank == a.rank || a.rank == 0) = true) :
+    (hb : res.base2k = a.base2k) (hrank : (res.rank == a.rank || a.rank == 0) = true) :
     ∃ r', glweRotate N k res a = .ok r' ∧ Same res r' ∧ GWF N r' ∧ r'.size = res.size ∧
       ∀ s, phase s r' = (fit N res.size (phase s a)).map (rotP k) :=
-  rotate_ok k hr ha sa hrank
+  rotate_ok k hr ha sa hb hrank
 
 example : ∃ r', glweRotate 2 (-7) exRes exA = .ok r' ∧ ∀ s, phase s r' = (fit 2 2 (phase s exA)).map (rotP (-7)) := by
-  obtain ⟨r', h, _, _, _, hp⟩ := rotate_phase (N := 2) (-7) (res := exRes) (a := exA) (by decide) (by decide) (by decide) (by decide)
+  obtain ⟨r', h, _, _, _, hp⟩ := rotate_phase (N := 2) (-7) (res := exRes) (a := exA) (by decide) (by decide) (by decide) rfl (by decide)
   exact ⟨r', h, hp⟩
 
 /-- `glwe_rotate_assign` -/
@@ -203,13 +203,13 @@ example : ∃ r', glweRotateAssign 2 5 exA = .ok r' ∧ ∀ s, phase s r' = (pha
 
 /-- `glwe_mul_xp_minus_one` -/
 theorem mul_xp_minus_one_phase {N : Nat} (k : Int) {res a : GLWE} (hr : GWF N res) (ha : GWF N a) (sa : GSmall a)
-    (hrank : res.rank = a.rank) :
+    (hb : res.base2k = a.base2k) (hrank : res.rank = a.rank) :
     ∃ r', glweMulXpMinusOne N k res a = .ok r' ∧ Same res r' ∧ GWF N r' ∧ r'.size = res.size ∧
       ∀ s, phase s r' = (fit N res.size (phase s a)).map (mxpP k) :=
-  mulXpMinusOne_ok k hr ha sa hrank
+  mulXpMinusOne_ok k hr ha sa hb hrank
 
 example : ∃ r', glweMulXpMinusOne 2 3 exRes exB = .ok r' ∧ ∀ s, phase s r' = (fit 2 2 (phase s exB)).map (mxpP 3) := by
-  obtain ⟨r', h, _, _, _, hp⟩ := mul_xp_minus_one_phase (N := 2) 3 (res := exRes) (a := exB) (by decide) (by decide) (by decide) rfl
+  obtain ⟨r', h, _, _, _, hp⟩ := mul_xp_minus_one_phase (N := 2) 3 (res := exRes) (a := exB) (by decide) (by decide) (by decide) rfl rfl
   exact ⟨r', h, hp⟩
 
 /-- `glwe_mul_xp_minus_one_assign` -/
@@ -366,53 +366,31 @@ example : ∃ p', run exPool exProg = .ok p' ∧
 example : step exPool (.rotate (-3) 1 2) ≠ .panic "assert" ∧ exactOp (.rotate (-3) 1 2) = true := by
   constructor <;> decide +kernel
 
-/-! ## defects of the pinned code (the model executes the code as it is)
+/-! ## operands of different radices are rejected
 
-FULL STATEMENT (false of the code, hence of the model): for every well-formed `res`, every `k` in
-`0 ..= (size+2)·base2k` and every scratch content, `glweRsh N scr k res = ok r'` and each column of
-`r'` is the column of `res` divided by `2^k` within one unit of the last limb (so the phase is the
-phase divided by `2^k` within `1 + Σ‖sᵢ‖₁` units).  It fails for `k = 0` (the carry of
-`vec_znx_rsh_assign` is never initialised), for `⌈k/base2k⌉ ≥ 2` (carry one limb too high) and
-panics for `⌈k/base2k⌉ > size`.  `k = 0` must be the identity on the torus: -/
+Before the repair `fix: glwe_negate / glwe_copy / glwe_rotate / glwe_mul_xp_minus_one accepted operands
+of different base2k` these four operations copied the digits of a radix-`2^a` operand verbatim into a
+radix-`2^b` result (the limb-column theorems held, their reading as torus values did not).  They now
+carry the assertion their siblings always had: -/
 
-/-- witness: rank 1, one limb, radix `2^4`, zeroed scratch; the body `9` is not normalised, its
-carry-out is left in the scratch words and added to the mask -/
-def exRsh : GLWE := { base2k := 4, k := 4, n := 2, cols := [[[9, 0]], [[1, 1]]] }
+/-- a radix mismatch is an assertion failure in all four operations (well-formed operands) -/
+theorem radix_mismatch_rejected {N : Nat} (k : Int) {res a : GLWE} (hr : GWF N res) (ha : GWF N a)
+    (hb : res.base2k ≠ a.base2k) :
+    glweNegate N res a = .panic "assert" ∧ glweCopy N res a = .panic "assert" ∧
+    glweRotate N k res a = .panic "assert" ∧ glweMulXpMinusOne N k res a = .panic "assert" := by
+  have hf : (res.base2k == a.base2k) = false := by simpa using hb
+  refine ⟨?_, ?_, ?_, ?_⟩
+  · unfold glweNegate
+    rw [check_true _ _ (beq_true ha.1), check_true _ _ (beq_true hr.1)]; simp [check, hf]
+  · unfold glweCopy
+    rw [check_true _ _ (beq_true hr.1), check_true _ _ (beq_true ha.1)]; simp [check, hf]
+  · unfold glweRotate
+    rw [check_true _ _ (beq_true ha.1), check_true _ _ (beq_true hr.1)]; simp [check, hf]
+  · unfold glweMulXpMinusOne
+    rw [check_true _ _ (beq_true hr.1), check_true _ _ (beq_true ha.1)]; simp [check, hf]
 
-theorem rsh_zero_counterexample :
-    ¬ (∀ (res r' : GLWE), GWF 2 res → glweRsh 2 0 0 res = .ok r' →
-        ∀ t, (valCoeff res.base2k (col r' 1) t - valCoeff res.base2k (col res 1) t) % 2 ^ (res.base2k * res.size) = 0) := by
-  intro h
-  have := h exRsh { exRsh with cols := [[[-7, 0]], [[2, 1]]] } (by decide) (by decide +kernel) 0
-  revert this
-  decide
-
-/-- and the shifts that leave the one-limb-step region panic or misplace the carry -/
-theorem rsh_steps_counterexample :
-    (∃ c, glweRsh 2 0 2 { base2k := 1, k := 1, n := 2, cols := [[[1, 1]]] } = .panic c) ∧
-    glweRsh 2 0 2 { base2k := 1, k := 2, n := 2, cols := [[[0, 0], [1, 1]]] }
-      = .ok { base2k := 1, k := 2, n := 2, cols := [[[-1, -1], [0, 0]]] } :=
-  ⟨⟨"assert", by decide +kernel⟩, by decide +kernel⟩
-
-/-
-FULL STATEMENT (false of the code): `glwe_negate` / `glwe_copy` / `glwe_rotate` /
-`glwe_mul_xp_minus_one` act on the torus value of the phase as negation / identity / `X^k` /
-`X^k − 1` for every pair of operands the API admits.  The API admits operands of different radices
-(no `base2k` assertion; the `res.base2k = a.base2k` at the end of `glwe_negate` is a dead store into
-the temporary made by `to_mut()`), for which the limbs are copied verbatim.  The proved theorems
-above are the `_partial` versions: they state the limb-column identity, which is the torus identity
-exactly when `res.base2k = a.base2k`.
--/
-
-/-- witness: a plaintext `1·2^-4` negated into a radix-`2^7` object becomes `−1·2^-7` -/
-theorem negate_radix_counterexample :
-    ¬ (∀ (res a r' : GLWE), GWF 2 res → GWF 2 a → a.rank = res.rank → glweNegate 2 res a = .ok r' →
-        ∀ t, (valCoeff r'.base2k (phase [] r') t * 2 ^ (a.base2k * a.size)
-              + valCoeff a.base2k (phase [] a) t * 2 ^ (r'.base2k * r'.size)) % 2 ^ (a.base2k * a.size + r'.base2k * r'.size) = 0) := by
-  intro h
-  have := h { base2k := 7, k := 7, n := 2, cols := [[[0, 0]]] } { base2k := 4, k := 4, n := 2, cols := [[[1, 2]]] }
-    { base2k := 7, k := 7, n := 2, cols := [[[-1, -2]]] } (by decide) (by decide) rfl (by decide +kernel) 0
-  revert this
-  decide
+example : glweNegate 2 { base2k := 7, k := 7, n := 2, cols := [[[0, 0]]] } { base2k := 4, k := 4, n := 2, cols := [[[1, 2]]] }
+    = .panic "assert" :=
+  (radix_mismatch_rejected (N := 2) 0 (by decide) (by decide) (by decide)).1
 
 end C02
